@@ -26,8 +26,9 @@ package c04
 //   nested   content starting with "NVAR": the nested store (if one is reported) is checked the same way
 //            against buf[DataOffset:]; no "NVAR" -> no nested store
 //
-// Tolerated quirk (stated in Props/C04.lean `nvar_overlap_witness`, reports/C04.md): the LAST entry may grow
-// the GUID table into the entries (FreeSpaceOffset > GUIDStoreOffset); it is counted (walker.nvOverlap).
+// Former quirk (DESIGN §14 finding 51, fixed by fixes/C04-nvar-table-overlap.diff; Props/C04.lean
+// `nvar_overlap_refused`): the LAST entry could grow the GUID table into the entries (FreeSpaceOffset >
+// GUIDStoreOffset). NewNVarStore refuses such a store now; a store reported with it is an oracle failure.
 
 import (
 	"bytes"
@@ -313,7 +314,10 @@ func (w *walker) nvStore(s *fuefi.NVarStore, body []byte, pol byte, where string
 	}
 	switch {
 	case run > gso:
-		w.nvOverlap++ // the quirk: the last entry grew the table into the entries
+		// the former quirk (DESIGN §14 finding 51): the last entry grew the table into the entries. Refused by
+		// NewNVarStore since fixes/C04-nvar-table-overlap.diff (Lean: parseStore_fso_le_gso, a clause of NvF)
+		w.nvOverlap++
+		fail("FreeSpaceOffset %#x > GUIDStoreOffset %#x: the same bytes are entry content and GUID table", run, gso)
 	case run < gso:
 		for i := run; i < gso; i++ {
 			if body[i] != pol {
